@@ -124,6 +124,24 @@ impl Chunk {
         Ok(())
     }
 
+    /// Upper bound for the number of `record_size`-byte records in this chunk
+    ///
+    /// The declared chunk size is clamped to the bytes the stream really holds
+    /// after the chunk's data position, so the result can be used to cap a
+    /// `Vec` capacity derived from an untrusted count. The stream position is
+    /// left unchanged.
+    pub(crate) fn max_records<S: Seek>(&self, stream: &mut S, record_size: u32) -> Result<usize> {
+        let position = stream.stream_position()?;
+        let end = stream.seek(SeekFrom::End(0))?;
+        stream.seek(SeekFrom::Start(position))?;
+
+        let available = end
+            .saturating_sub(self.data_position)
+            .min(u64::from(self.header.size));
+
+        Ok((available / u64::from(record_size.max(1))) as usize)
+    }
+
     /// Read the data of this chunk into a buffer
     pub fn read_data<R: Read + Seek>(&self, reader: &mut R) -> Result<Vec<u8>> {
         self.seek_to_data(reader)?;
